@@ -5,6 +5,7 @@ import (
 	"encoding/binary"
 	"fmt"
 	"math/big"
+	"runtime"
 	"sort"
 	"strings"
 	"sync"
@@ -87,6 +88,8 @@ type c16World struct {
 	// number of publications per send id
 	seqnos       map[uint64]map[uint64]int
 	publications int
+	// deliveries under way inside Publish (entered, not returned)
+	inflight map[c16Key]int
 }
 
 type c16Receiver struct {
@@ -134,9 +137,36 @@ func (p *c16Publisher) Publish(_ context.Context, data []byte, _ ...pubsub.PubOp
 	}
 	p.w.seqnos[id][m.SequenceNumber]++
 	p.w.publications++
+	key := c16Key{p.self.String(), m.SequenceNumber}
+	p.w.inflight[key]++
 	p.w.mu.Unlock()
-	p.w.startDelivery(c16Key{p.self.String(), m.SequenceNumber})
-	return p.ch.processPubsubMessage(&pubsub.Message{Message: &pubsubpb.Message{From: []byte(p.self), Data: append([]byte{}, data...)}})
+	p.w.startDelivery(key)
+	err := p.ch.processPubsubMessage(&pubsub.Message{Message: &pubsubpb.Message{From: []byte(p.self), Data: append([]byte{}, data...)}})
+	p.w.mu.Lock()
+	p.w.inflight[key]--
+	p.w.mu.Unlock()
+	return err
+}
+
+// c16RetransmissionGoroutines counts goroutines that are inside the
+// retransmission scheduler (registering a tick handler or running a tick).
+func c16RetransmissionGoroutines() int {
+	buf := make([]byte, 1<<20)
+	for {
+		n := runtime.Stack(buf, true)
+		if n < len(buf) {
+			buf = buf[:n]
+			break
+		}
+		buf = make([]byte, 2*len(buf))
+	}
+	n := 0
+	for _, g := range strings.Split(string(buf), "\n\n") {
+		if strings.Contains(g, "retransmission.ScheduleRetransmissions") {
+			n++
+		}
+	}
+	return n
 }
 
 func c16Envelope(sender []byte, tpe string, id uint64, seqno uint64) []byte {
@@ -190,14 +220,26 @@ func TestVerif_C16_Libp2pChannel(t *testing.T) {
 	peers := []*c16Node{c16MakeNode(2), c16MakeNode(3), c16MakeNode(4)}
 	rapid.Check(t, func(t *rapid.T) {
 		ticks := make(chan uint64)
-		defer close(ticks)
+		defer func() {
+			// The Ticker's shutdown path is not synchronised with handler
+			// registration (outside this property): close the tick source only
+			// once nobody is inside the scheduler any more, else leave it.
+			// (deferred functions run last-in first-out: all contexts are
+			// cancelled by now.) One last tick makes the Ticker take its lock
+			// after the last registration, which orders its unlocked cleanup
+			// behind every registration.
+			if verifkit.Eventually(5*time.Second, func() bool { return c16RetransmissionGoroutines() == 0 }) {
+				ticks <- 0
+				close(ticks)
+			}
+		}()
 		ch := &channel{
 			name:                 "c16",
 			clientIdentity:       self.ident,
 			unmarshalersByType:   map[string]func() net.TaggedUnmarshaler{},
 			retransmissionTicker: retransmission.NewTicker(ticks),
 		}
-		w := &c16World{seqnos: map[uint64]map[uint64]int{}}
+		w := &c16World{seqnos: map[uint64]map[uint64]int{}, inflight: map[c16Key]int{}}
 		ch.publisher = &c16Publisher{w: w, ch: ch, self: self.id}
 		ch.SetUnmarshaler(func() net.TaggedUnmarshaler { return &c16Payload{tpe: c16Type} })
 		ch.SetUnmarshaler(func() net.TaggedUnmarshaler { return &c16Payload{tpe: c16Sentinel} })
@@ -281,6 +323,11 @@ func TestVerif_C16_Libp2pChannel(t *testing.T) {
 			// may then contain deliveries the receiver never gets (harmless)
 			w.mu.Lock()
 			w.receivers = append(w.receivers, r)
+			for k, n := range w.inflight {
+				if n > 0 {
+					r.started[k] = true // under way right now: may or may not reach r
+				}
+			}
 			w.mu.Unlock()
 			ch.Recv(ctx, func(m net.Message) {
 				w.mu.Lock()
